@@ -349,7 +349,8 @@ pub fn big_docs(name: &str) -> Vec<Vec<u8>> {
         "lexla" => vec!["ab abcd abcx 1.5 1..5 /ab/ / --> .. ...\n".repeat(40)],
         "indent" => vec!["a:\n b:\n  c d\n  e\n f\ng\n".repeat(40)],
         "pstring" => vec!["%(a(b)#{x %[y]}c) w 1 (z)\n".repeat(50)],
-        _ => vec![],
+        "lookfar" => vec!["a-bc-a! bc a-bc bc-a-bc-a-bc !\n".repeat(40)],
+        _ => vec![format!("{}\n", name).repeat(40)],
     };
     v.into_iter().map(|s| s.into_bytes()).collect()
 }
